@@ -19,6 +19,7 @@
                   flat-amplifier shortcut returns the effective gain.
  Rm memo          : every memoisation construct in the functions behind this property is keyed by everything it reads.
  Rp presence      : optional numeric fields are tested with `is None` / membership, never by truthiness (0 is a value).
+ Rk field/key     : the parameter classes store every configuration entry under its own name (frozen rename table).
 """
 import ast
 from fractions import Fraction
@@ -539,6 +540,15 @@ def r8_dual_stage(ctx):
 
 
 
+def rk_field_key(ctx):
+    """Rk: the parameter classes behind this property store every configuration entry under its own name (self.X = params['X']);
+    the deliberate renames are a frozen table (gscan/fieldkey.py)"""
+    from ..fieldkey import field_key_rule
+    repo = ctx.repo
+    n = field_key_rule(ctx, 'Rk.field-key', [repo.cls('EdfaParams', 'gnpy.core.parameters'), repo.cls('EdfaOperational', 'gnpy.core.parameters')], 'an amplifier stage would be evaluated with the limits of another stage or parameter')
+    ctx.need('Rk.field-key', 20)
+
+
 from ..memo import rule_for as _memo_rule
 
 RULES_MEMO = ('Rm.memo', _memo_rule('C04', 'the gain, NF or ASE of another operating point would be applied'))
@@ -549,4 +559,4 @@ from ..presence import rule_for as _presence_rule
 RULES_PRESENCE = ('Rp.presence', _presence_rule('C04', 'an amplifier setting of exactly 0 would be replaced by a default'))
 
 RULES = [('R8.dual-stage', r8_dual_stage), ('R1.ase', r1_ase), ('R2.order', r2_order), ('R3.clamp', r3_clamp), ('R4.nf', r4_nf), ('R5.exhaustive', r5_exhaustive),
-         ('R6.band', r6_band), ('R7.gain-profile', r7_gain_profile), RULES_MEMO, RULES_PRESENCE]
+         ('R6.band', r6_band), ('R7.gain-profile', r7_gain_profile), RULES_MEMO, RULES_PRESENCE, ('Rk.field-key', rk_field_key)]
